@@ -119,6 +119,10 @@ impl Payloads {
     pub fn new(salt: u64) -> Self {
         Payloads { by_bytes: HashMap::new(), by_tok: HashMap::new(), salt, next: 1 }
     }
+    /// the token the next upload will get
+    pub fn peek_tok(&self) -> i64 {
+        self.next
+    }
     pub fn fresh_tok(&mut self) -> i64 {
         let t = self.next;
         self.next += 1;
